@@ -492,7 +492,11 @@ def sniffers(ctx, n):
     fixed = [('', None), ('a', None), ('ab', None), ('abc', None), ('\xfe\xff', None), ('\xef\xbb\xbf', None), ('abcd', (None, None)),
              ('\xef\xbb\xbfa', ('utf-8', None)), ('\x00\x00\xfe\xff', ('utf_32_be', None)), ('\xff\xfe\x00\x00', ('utf_32_le', None)),
              ('\xff\xfe\x00a', ('utf_16_le', None)), ('<?xml version="1.0"?><x encoding="ascii"/>', (None, None)),
-             ("<?xml version='1.0'\n encoding='x'?>", (None, 'x'))]
+             ("<?xml version='1.0'\n encoding='x'?>", (None, 'x')),
+             # a declaration without an encoding, followed on later lines by an encoding="..." attribute and a '?>'
+             ('<?xml version="1.0"?>\n<x encoding="koi8-r"/>\n<?pi ?>', (None, None)),
+             ('<?xml version="1.0" standalone="yes"?>\n<root>\n <data encoding=\'base64\'>QQ==</data>\n <?xml-stylesheet href="a.css"?>\n</root>', (None, None)),
+             ('<?xml version="1.0"?>\r\n<!-- encoding="x" ?> -->', (None, None))]
     docs = fixed + [gen_sniff_doc(rng) for _ in range(n)]
     for doc, expected in docs:
         kind = rng.choice(['str', 'bytes', 'stringio', 'bytesio'])
